@@ -7,6 +7,9 @@ NAMES = ["Alpha", "Bravo", "Charlie", "Delta", "Echo", "Foxtrot", "Golf", "Hotel
          "Kilo", "Lima", "Mike", "November", "Oscar", "Papa", "Quebec", "Romeo", "Sierra", "Tango"]
 SEPS = ["-", "_", "~", "."]
 VALUE_ALPHABET = string.ascii_letters + string.digits + "-_~.@:+%= é"
+# characters that mean something to `re` or to `str.format`, and a few more outside ASCII: all of them are
+# "characters that are not delimiters of the pattern", so a value made of them must survive the round trip
+SPECIAL_ALPHABET = "*$()[]\\^|?{}!,'\"#&;<>\t\r中ß"
 COMMON = ["billing_account", "folder", "organization", "project", "location"]
 
 
@@ -63,22 +66,37 @@ def delimiters(segs):
     return d
 
 
+def gen_chunk(r: apigen.Rng, alpha, special):
+    """one non-empty '/'-free run of non-delimiter characters: mostly short, sometimes long, sometimes one
+    character, sometimes with regex/format metacharacters"""
+    shape = r.random()
+    if shape < 0.08:
+        n = 1
+    elif shape < 0.18:
+        n = r.randint(12, 40)
+    else:
+        n = r.randint(1, 6)
+    pool = alpha + special if r.maybe(0.25) else alpha
+    v = "".join(r.pick(pool) for _ in range(n))
+    if r.maybe(0.5):                           # every character family in one value: letters of both cases and digits
+        v += "".join(c for c in "aZ7" if c in alpha)
+    return v
+
+
 def gen_values(r: apigen.Rng, segs):
+    """values over non-delimiter characters; the trailing `**` variable is a resource-name tail of 1..7
+    non-empty '/'-separated segments (zero to six '/'), every other value has no '/'."""
     d = delimiters(segs)
     alpha = [c for c in VALUE_ALPHABET if c not in d]
+    special = [c for c in SPECIAL_ALPHABET if c not in d]
     vals = []
-    nv = sum(1 for s in segs if s[0] == "var")
-    k = 0
     for idx, s in enumerate(segs):
         if s[0] != "var":
             continue
-        k += 1
-        n = r.randint(1, 6)
-        v = "".join(r.pick(alpha) for _ in range(n))
-        if r.maybe(0.5):                       # every character family in one value: letters of both cases and digits
-            v += "".join(c for c in "aZ7" if c in alpha)
-        if s[2] and idx == len(segs) - 1 and r.maybe(0.7):    # trailing ** may contain '/'
-            v += "/" + "".join(r.pick(alpha) for _ in range(r.randint(1, 4)))
+        v = gen_chunk(r, alpha, special)
+        if s[2] and idx == len(segs) - 1 and r.maybe(0.8):    # trailing ** may contain '/': any number of them
+            extra = r.pick([1, 1, 2, 2, 2, 3, 3, 4, 5, 6])
+            v = "/".join([v] + [gen_chunk(r, alpha, special) for _ in range(extra)])
         vals.append(v)
     return vals
 
@@ -156,6 +174,15 @@ def oracle_and_diff(ctx, cases, results, model, source):
         for s, pr in zip(c["nonmatching"], r["nonmatching"]):
             if pr.get("value") != {}:
                 ctx.fail(key or "nonmatch-not-empty", f"parse of non-matching {s!r} gave {pr}", {**payload, "path": s})
+        # the async client offers the same helpers (the property says "the client": both emitted clients)
+        ab, ap = r.get("async_built"), r.get("async_parsed")
+        if ab is not None:
+            if ab.get("value") != expect_path:
+                ctx.fail(key or "build-wrong", f"LibraryAsyncClient.{snake(c['name'])}_path gave {ab} != pattern instantiated {expect_path!r}",
+                         {**payload, "client": "async"})
+            elif ap is not None and ap.get("value") != want:
+                ctx.fail(key or "roundtrip", f"async client: parse(build({vals})) = {ap} for pattern {render(segs)!r}",
+                         {**payload, "path": expect_path, "observed": ap.get("value", ap), "client": "async"})
         # ---- correspondence with the Lean model
         if mo.get("unsupported") or mo.get("regex") is None and render(segs) != "*":
             ctx.unsupported += 1
@@ -207,6 +234,8 @@ def run_batch(ctx, batch, label):
         for c in batch:
             sn = snake(c["name"])
             ops.append({"op": "call", "module": "acme.lib_v1", "attr": f"LibraryClient.{sn}_path", "args": c["values"]})
+        for c in batch:
+            ops.append({"op": "call", "module": "acme.lib_v1", "attr": f"LibraryAsyncClient.{snake(c['name'])}_path", "args": c["values"]})
         out = libhost.run(root, ops)
         if "child_error" in out[0]:
             ctx.fail("import-failed", "emitted library failed: " + out[0]["child_error"][-300:], {"patterns": patterns})
@@ -221,8 +250,10 @@ def run_batch(ctx, batch, label):
             for fn in (f"{sn}_path", f"parse_{sn}_path"):
                 if fn not in names:
                     ctx.fail("helper-missing", f"{fn} missing from client", {"pattern": render(c["segs"]), "kind": c.get("kind")})
+        nb = len(batch)
+        a_built = out[1 + nb:1 + 2 * nb]
         ops2, idx = [], []
-        for c, b in zip(batch, out[1:]):
+        for c, b in zip(batch, out[1:1 + nb]):
             sn = snake(c["name"])
             start = len(ops2)
             if "value" in b:
@@ -230,14 +261,21 @@ def run_batch(ctx, batch, label):
             for s in c["nonmatching"]:
                 ops2.append({"op": "call", "module": "acme.lib_v1", "attr": f"LibraryClient.parse_{sn}_path", "args": [s]})
             idx.append(start)
+        a_idx = {}
+        for k, (c, b) in enumerate(zip(batch, a_built)):
+            if "value" in b:
+                a_idx[k] = len(ops2)
+                ops2.append({"op": "call", "module": "acme.lib_v1", "attr": f"LibraryAsyncClient.parse_{snake(c['name'])}_path", "args": [b["value"]]})
         out2 = libhost.run(root, ops2)
         results = []
-        for c, b, st in zip(batch, out[1:], idx):
+        for n_, (c, b, st) in enumerate(zip(batch, out[1:1 + nb], idx)):
             k = st
             parsed = {"raised": "n/a"}
             if "value" in b:
                 parsed = out2[k]; k += 1
-            results.append({"built": b, "parsed": parsed, "nonmatching": out2[k:k + len(c["nonmatching"])]})
+            results.append({"built": b, "parsed": parsed, "nonmatching": out2[k:k + len(c["nonmatching"])],
+                            "async_built": a_built[n_] if n_ < len(a_built) else None,
+                            "async_parsed": out2[a_idx[n_]] if n_ in a_idx else None})
         oracle_and_diff(ctx, batch, results, model, label)
     finally:
         genrun.cleanup(root)
@@ -271,7 +309,7 @@ EXCLUDED_POINTS = [
 ]
 
 
-def check_name_shapes(ctx, which=("same-short-name", "keyword-variable")):
+def check_name_shapes(ctx, which=("same-short-name", "keyword-variable", "common-prefix")):
     """two legal but unusual shapes of resource NAMES (not of patterns): both are open findings (known_findings.json)"""
     import subprocess, sys as _sys
     for shape in which:
@@ -279,6 +317,9 @@ def check_name_shapes(ctx, which=("same-short-name", "keyword-variable")):
         svc = f.service("Library")
         if shape == "same-short-name":
             specs = [("Thing", "foo.example.com/Thing", "foos/{foo}/things/{thing}"), ("OtherThing", "bar.example.com/Thing", "bars/{bar}/things/{thing}")]
+        elif shape == "common-prefix":
+            # the helper of a resource whose short name snake-cases to `common_project` has the name of a common-resource helper
+            specs = [("CommonProject", "lib.example.com/CommonProject", "foos/{foo}/bars/{bar}")]
         else:
             specs = [("Klass", "lib.example.com/Klass", "classes/{class}/imports/{import}")]
         for mname, rtype, pat in specs:
@@ -305,8 +346,9 @@ def check_name_shapes(ctx, which=("same-short-name", "keyword-variable")):
             probe = ("import json\nfrom acme.lib_v1.services.library import LibraryClient as C\nout = {}\n"
                      "for pat, vals in %r:\n"
                      "    built = pat.format(**vals)\n"
-                     "    out[pat] = [sorted(n for n in dir(C) if n.endswith('_path') and 'common' not in n), [getattr(C, n)(built) for n in dir(C) if n.startswith('parse_') and 'common' not in n]]\n"
-                     "print(json.dumps(out))\n") % ([(pat, {v: "x" + v for v in re.findall(r"{(\w+)}", pat)}) for _, _, pat in specs],)
+                     "    out[pat] = [sorted(n for n in dir(C) if n.endswith('_path') and (%r or 'common' not in n)), [getattr(C, n)(built) for n in dir(C) if n.startswith('parse_') and (%r or 'common' not in n)]]\n"
+                     "print(json.dumps(out))\n") % ([(pat, {v: "x" + v for v in re.findall(r"{(\w+)}", pat)}) for _, _, pat in specs],
+                                                       shape == "common-prefix", shape == "common-prefix")
             p_ = subprocess.run([_sys.executable, "-c", probe], cwd=root, capture_output=True, text=True, env={"PYTHONPATH": root, "PATH": "/usr/bin:/bin"}, timeout=120)
         finally:
             genrun.cleanup(root)
@@ -318,16 +360,255 @@ def check_name_shapes(ctx, which=("same-short-name", "keyword-variable")):
             helpers, parses = out[pat]
             vals = {v: "x" + v for v in re.findall(r"{(\w+)}", pat)}
             if vals not in parses:       # no helper of the client parses a path built from THIS pattern
-                key = "helper-name-collision:same-short-name" if shape == "same-short-name" else f"name-shape:{shape}:roundtrip"
+                key = {"same-short-name": "helper-name-collision:same-short-name",
+                       "common-prefix": "helper-name-collision:common-prefix"}.get(shape, f"name-shape:{shape}:roundtrip")
                 ctx.fail(key, f"resource {rtype} ({pat}): no parse_*_path of the client recovers {vals} (helpers: {helpers})", payload)
+
+
+# ------------------------------------------------------------------------------------------------
+# which resources a service sees (Service.resource_messages / Proto.resource_messages / visible_resources)
+# vs Model/ResourceVis.lean, and which helpers the emitted clients carry for them
+
+VIS_HOMES = ["msg:F0", "msg:F1", "file:F0", "file:F1", "file:F2", "msg:F2", "nested:F0"]
+VIS_PKG = "acme.lib.v1"
+
+
+def gen_vis_spec(r: apigen.Rng, nested_ref=False):
+    """a JSON plan of an API spread over three files (F0 service + wrappers, F1 same package, F2 another,
+    non-generated package that F0 imports): every resource has a home (top-level message, nested message,
+    file-level definition) and a link to the service (reached as a field TYPE or named by a resource_reference
+    `type` / `child_type`, from the request, the response or the response type of a long-running operation, through
+    0..3 wrapper messages, optionally recursive) or no link at all."""
+    n = r.randint(5, 10)
+    res = []
+    for k in range(n):
+        name = NAMES[k]
+        segs = gen_pattern(r)
+        while render(segs) == "*":
+            segs = gen_pattern(r)
+        home = r.pick(VIS_HOMES)
+        if home.startswith("file") or home == "msg:F2":
+            via = r.pick(["ref", "ref", "child_ref", "none"])      # a message of another package is never a field type here
+        else:                                                       # top-level and nested messages alike (nested named-only: fixed in 109fab8)
+            via = r.pick(["type", "type", "ref", "child_ref", "none"])
+        if nested_ref and k == 0:
+            home, via = "nested:F0", "ref"
+        res.append({"name": name, "type": f"{r.pick(['lib', 'other'])}.example.com/{name}", "segs": segs,
+                    "home": home, "via": via, "side": r.pick(["input", "output", "lro", "lro"]),
+                    "depth": r.pick([0, 0, 1, 1, 2, 3]), "cycle": r.maybe(0.3), "values": gen_values(r, segs)})
+    extras = {"ref_unknown": r.maybe(0.5), "ref_star": r.maybe(0.3), "ref_common": r.maybe(0.5),
+              "dup_definition": r.maybe(0.3)}
+    return {"resources": res, "extras": extras}
+
+
+def build_vis_api(spec):
+    f0 = apigen.File("acme/lib/v1/lib.proto", VIS_PKG)
+    f1 = apigen.File("acme/lib/v1/res.proto", VIS_PKG)
+    f2 = apigen.File("acme/common/kinds.proto", "acme.common")
+    f0.dep("acme/lib/v1/res.proto", "acme/common/kinds.proto")
+    files = {"F0": f0, "F1": f1, "F2": f2}
+    svc = f0.service("Library")
+    for k, rs in enumerate(spec["resources"]):
+        name, pat = rs["name"], render(rs["segs"])
+        kind, where = rs["home"].split(":")
+        target = None
+        if kind == "file":
+            files[where].resource_definition(rs["type"], pat)
+        elif kind == "msg":
+            target = files[where].msg(name); target.field("name", "string"); target.resource(rs["type"], pat)
+        if rs["via"] == "none":
+            if kind == "nested":
+                o = f0.msg(f"Lone{name}"); o.field("x", "string")
+                t = o.nested(name); t.field("name", "string"); t.resource(rs["type"], pat)
+            continue
+        # the side message of the method
+        rq = f0.msg(f"Do{name}Request"); rq.field("parent", "string")
+        if rs["side"] == "input":
+            side = rq
+            svc.method(f"Do{name}", rq, ".google.protobuf.Empty")
+        elif rs["side"] == "output":
+            side = f0.msg(f"Do{name}Response"); side.field("etag", "string")
+            svc.method(f"Do{name}", rq, side)
+        else:
+            side = f0.msg(f"Do{name}Result"); side.field("etag", "string")
+            svc.method(f"Do{name}", rq, ".google.longrunning.Operation", lro=(f"{VIS_PKG}.Do{name}Result", "google.protobuf.Empty"))
+        holder, first = side, None
+        for d in range(rs["depth"]):
+            w = f0.msg(f"Wrap{name}{d}"); w.field("note", "string")
+            holder.field(f"w{d}", "message", type_name=w)
+            first = first or w
+            holder = w
+        if rs["cycle"] and first is not None:
+            holder.field("back", "message", type_name=first)          # Wd -> W0 -> ... -> Wd
+            first.field("self_", "message", type_name=first, repeated=True)
+        if kind == "nested":
+            t = holder.nested(name); t.field("name", "string"); t.resource(rs["type"], pat)
+            target = t
+            if rs["via"] != "type":
+                holder.field("target", "string", **({"ref": rs["type"]} if rs["via"] == "ref" else {"child_ref": rs["type"]}))
+                continue
+        if rs["via"] == "type":
+            holder.field("item", "message", type_name=target, repeated=(k % 2 == 1))
+        elif rs["via"] == "ref":
+            holder.field("target", "string", ref=rs["type"])
+        else:
+            holder.field("target", "string", child_ref=rs["type"])
+    ex = spec.get("extras", {})
+    if ex.get("ref_unknown") or ex.get("ref_star") or ex.get("ref_common"):
+        rq = f0.msg("ProbeRequest")
+        if ex.get("ref_unknown"):
+            rq.field("u", "string", ref="nowhere.example.com/Undefined")
+        if ex.get("ref_star"):
+            rq.field("s", "string", ref="*")
+        if ex.get("ref_common"):
+            rq.field("p", "string", ref="cloudresourcemanager.googleapis.com/Project")
+            rq.field("l", "string", child_ref="locations.googleapis.com/Location")
+        svc.method("Probe", rq, ".google.protobuf.Empty")
+    if ex.get("dup_definition"):
+        # one type, defined at file level in F1 AND by a message of F1, same pattern (dict semantics: one entry)
+        for rs in spec["resources"]:
+            if rs["home"] == "msg:F1":
+                f1.resource_definition(rs["type"], render(rs["segs"]))
+                break
+    f2.msg("Kind").field("k", "string")
+    return [f2, f1, f0], [f1, f0]
+
+
+def vis_model_input(req):
+    """the model's API, read off the request's descriptors (every proto_file, in order) — not off the plan"""
+    from google.api import resource_pb2
+    from google.longrunning import operations_pb2
+    files, msgs, methods = [], [], []
+
+    def res_of(opts_res):
+        return [opts_res.type, opts_res.pattern[0]] if opts_res.type and opts_res.pattern else None
+
+    def walk(m, prefix):
+        full = f"{prefix}.{m.name}"
+        fields = []
+        for fl in m.field:
+            rr = fl.options.Extensions[resource_pb2.resource_reference]
+            fields.append([fl.type_name.lstrip(".") if fl.type == 11 else None, (rr.type or rr.child_type) or None])
+        msgs.append({"name": full, "fields": fields, "res": res_of(m.options.Extensions[resource_pb2.resource])})
+        for nm in m.nested_type:
+            walk(nm, full)
+
+    for fd in req.proto_file:
+        defs = [[d.type, d.pattern[0]] for d in fd.options.Extensions[resource_pb2.resource_definition] if d.pattern]
+        start = len(msgs)
+        for m in fd.message_type:
+            walk(m, fd.package)
+        # Proto.all_messages order: nested messages are loaded before their parent (only matters for a type declared twice in one file)
+        def post(m, prefix):
+            full = f"{prefix}.{m.name}"
+            return [x for nm in m.nested_type for x in post(nm, full)] + [full]
+        files.append({"defs": defs, "all": [x for m in fd.message_type for x in post(m, fd.package)]})
+        assert len(files[-1]["all"]) == len(msgs) - start
+    known = {m["name"] for m in msgs}
+    for fd in req.proto_file:
+        if fd.name not in req.file_to_generate:
+            continue
+        for sv in fd.service:
+            for me in sv.method:
+                oi = me.options.Extensions[operations_pb2.operation_info]
+                lro = None
+                if me.output_type == ".google.longrunning.Operation" and oi.response_type:
+                    lro = oi.response_type if oi.response_type in known else f"{fd.package}.{oi.response_type}"
+                methods.append([me.input_type.lstrip("."), me.output_type.lstrip("."), lro])
+    return {"op": "c19vis", "files": files, "msgs": msgs, "methods": methods}
+
+
+def run_vis(ctx, spec, label):
+    files, targets = build_vis_api(spec)
+    payload = {"vis": spec}
+    req = apigen.request(files, "transport=grpc,autogen-snippets=false", targets=targets)
+    ctx.case({"vis": [[x["home"], x["via"], x["side"], x["depth"], x["cycle"]] for x in spec["resources"]]},
+             distinct_key=["vis", json.dumps(spec, sort_keys=True)], nontrivial=any(x["via"] != "none" for x in spec["resources"]))
+    for x in spec["resources"]:
+        ctx.count("visibility", f"{x['home'].split(':')[0]}/{x['via']}/{x['side'] if x['via'] != 'none' else '-'}")
+    # ---- T2: Service.resource_messages vs the model
+    api, _ = genrun.build_api(req)
+    svc = next(iter(api.services.values()))
+    impl = sorted({(m.resource_type_full_path, m.resource_path) for m in svc.resource_messages})
+    mo = ctx.driver.ask([vis_model_input(req)])[0]
+    if mo.get("unsupported") or "resources" not in mo:
+        ctx.unsupported += 1
+        mo = None
+    else:
+        ctx.traces += 1
+        if sorted(tuple(x) for x in mo["resources"]) != impl:
+            ctx.disagree("T2:c19.resource_messages", f"model {sorted(tuple(x) for x in mo['resources'])} vs Service.resource_messages {impl}", payload)
+    # ---- T3 + oracle on the emitted clients
+    res, err = genrun.try_generate(req)
+    if err:
+        ctx.fail("vis:generation", f"generator raised {err[0]}: {err[1]}", payload)
+        return
+    root = genrun.materialise(res)
+    try:
+        want = [x for x in spec["resources"] if x["via"] != "none"]
+        ops = [{"op": "dir", "module": "acme.lib_v1", "attr": "LibraryClient"},
+               {"op": "dir", "module": "acme.lib_v1", "attr": "LibraryAsyncClient"}]
+        for cl in ("LibraryClient", "LibraryAsyncClient"):
+            for x in want:
+                ops.append({"op": "call", "module": "acme.lib_v1", "attr": f"{cl}.{snake(x['name'])}_path", "args": x["values"]})
+        out = libhost.run(root, ops)
+        if "child_error" in out[0]:
+            ctx.fail("import-failed", "emitted library failed: " + out[0]["child_error"][-300:], payload)
+            return
+        built = out[2:]
+        ops2 = []
+        for i, cl in enumerate(("LibraryClient", "LibraryAsyncClient")):
+            for j, x in enumerate(want):
+                b = built[i * len(want) + j]
+                ops2.append({"op": "call", "module": "acme.lib_v1", "attr": f"{cl}.parse_{snake(x['name'])}_path",
+                             "args": [b.get("value", "")]})
+        out2 = libhost.run(root, ops2) if ops2 else []
+        for i, cl in enumerate(("LibraryClient", "LibraryAsyncClient")):
+            names = set(out[i].get("names", []))
+            for j, x in enumerate(want):
+                sn = snake(x["name"])
+                pl = {**payload, "resource": x["name"], "client": cl}
+                missing = [fn for fn in (f"{sn}_path", f"parse_{sn}_path") if fn not in names]
+                if missing:
+                    ctx.fail("helper-missing",
+                             f"{cl}: {missing} missing for resource {x['type']} ({render(x['segs'])}; {x['home']}, {x['via']} from {x['side']} at depth {x['depth']})", pl)
+                    continue
+                b, pr = built[i * len(want) + j], out2[i * len(want) + j]
+                args = [s[1] for s in x["segs"] if s[0] == "var"]
+                expect_path = "".join(s[1] if s[0] == "lit" else x["values"][args.index(s[1])] for s in x["segs"])
+                if b.get("value") != expect_path:
+                    ctx.fail("build-wrong" if "value" in b else "build-raised", f"{cl}.{sn}_path{tuple(x['values'])} gave {b}, pattern instantiated is {expect_path!r}", pl)
+                elif pr.get("value") != dict(zip(args, x["values"])):
+                    ctx.fail("roundtrip" if "value" in pr else "parse-raised", f"{cl}: parse(build({x['values']})) = {pr} for {render(x['segs'])!r}", pl)
+            for rname in COMMON:
+                for fn in (f"common_{rname}_path", f"parse_common_{rname}_path"):
+                    if fn not in names:
+                        ctx.fail("helper-missing", f"{cl}: {fn} missing", {**payload, "client": cl})
+            if mo is not None:
+                impl_h = {n for n in names if n.endswith("_path") and not n.startswith(("common_", "parse_common_"))}
+                mod_h = {h + "_path" for h, _ in mo["helpers"]} | {"parse_" + h + "_path" for h, _ in mo["helpers"]}
+                mod_h = {n for n in mod_h if not n.startswith(("common_", "parse_common_"))}
+                if impl_h != mod_h:
+                    ctx.disagree("T3:c19.helper-set", f"{cl}: helpers of the class {sorted(impl_h ^ mod_h)} differ from the model's", payload)
+    finally:
+        genrun.cleanup(root)
+
 
 
 def run(ctx):
     ctx.rule = ("structured patterns per the quantifier (1..6 variables, collection ids, separators - _ ~ ., "
-                "trailing **, singleton suffix, wildcard) x values over non-delimiter characters; a case is "
-                "distinct by (pattern, values); non-trivial = at least one variable and a successful build")
+                "trailing **, singleton suffix, wildcard) x values over non-delimiter characters (short, one-character "
+                "and long runs, regex/format metacharacters, non-ASCII; the trailing ** value is a tail of 1..7 "
+                "non-empty segments, i.e. 0..6 '/'); helpers of the sync and of the async client; a case is "
+                "distinct by (pattern, values); non-trivial = at least one variable and a successful build; visibility plans: "
+                "5..10 resources over three files (service file, same-package file, imported non-generated package) whose home is a "
+                "top-level message, a nested message or a file-level definition and that the service reaches as a field type or "
+                "names by resource_reference type/child_type from the request, the response or an LRO response type through 0..3 "
+                "wrapper messages (optionally recursive), or does not reach at all; a plan is one case")
     ctx.assume("segment values are generated non-empty and newline-free except in the excluded-point stream")
     ctx.assume("resource patterns have distinct variable names (re.compile rejects duplicates)")
+    ctx.assume("every resource has at least one pattern; resource types of one API are distinct (a type defined twice is generated only with one pattern)")
+    ctx.assume("helper names are distinct in the random visibility plans (the two collisions are dedicated corpus cases)")
     check_name_shapes(ctx)
     r = ctx.rng("patterns")
     napis = ctx.n(3, 40)
@@ -350,8 +631,21 @@ def run(ctx):
             ctx.case({"pattern": render(c["segs"]), "values": c["values"]},
                      distinct_key=[render(c["segs"]), c["values"]],
                      nontrivial=any(s[0] == "var" for s in c["segs"]))
+    # which resources the service sees: multi-file plans, model vs Service.resource_messages vs the emitted clients
+    rv = ctx.rng("visibility")
+    import os, common
+    cdir = os.path.join(common.ROOT, "corpus", "C19")
+    for fn in sorted(os.listdir(cdir)):                      # corpus replays of the visibility findings first
+        blob = json.load(open(os.path.join(cdir, fn)))
+        if "vis" in blob.get("payload", {}):
+            run_vis(ctx, blob["payload"]["vis"], "corpus:" + fn)
+    if ctx.tier == "thorough":
+        run_vis(ctx, gen_vis_spec(rv, nested_ref=True), "vis-nested-named-only")
+    for a in range(ctx.n(10, 300)):
+        run_vis(ctx, gen_vis_spec(rv), f"vis{a}")
     # value sweep on the last API's patterns through the function-level path (regex only, no regeneration)
     sweep(ctx, r, ctx.n(40, 400), ctx.n(25, 100))
+    beyond(ctx, ctx.rng("beyond"), ctx.n(60, 600), ctx.n(10, 40))
 
 
 def sweep(ctx, r, npat, nval):
@@ -396,9 +690,78 @@ def sweep(ctx, r, npat, nval):
             ctx.disagree("T2:c19.sweep", f"model {mo['built']!r}/{mo['parsed_built']} vs impl {path!r}/{parsed}", payload)
 
 
+BEYOND_POINTS = [
+    # points the hypotheses of the theorems exclude and the property's quantifier excludes too: the model must
+    # still say what the real code does there (each is a `…_counterexample` / witness theorem of Props/C19.lean)
+    ([["lit", "as/"], ["var", "a", False], ["lit", "-"], ["var", "b", False]], ["x-y", "z"]),           # delimiter_in_value_counterexample
+    ([["lit", "p/"], ["var", "a", False], ["var", "b", False]], ["xy", "z"]),                             # adjacent_variables_counterexample
+    ([["lit", "as/"], ["var", "a", False], ["lit", "-"], ["var", "b", False], ["lit", "_"], ["var", "c", False]], ["x_y", "u", "w"]),  # other_separator_in_value_roundtrip
+    ([["lit", "p/"], ["var", "a", False], ["lit", "/q/"], ["var", "b", False]], ["x/y", "k"]),            # '/' in a non-last variable
+    ([["lit", "p/"], ["var", "a", False], ["lit", "/settings"]], ["x/settings/y"]),                        # last variable before a singleton suffix holds the suffix
+    ([["lit", "p/"], ["var", "a", False], ["lit", "/q"]], ["x\n"]),
+    ([["lit", "p/"], ["var", "a", False]], ["x\n"]),                                                       # `$` matches before a final newline
+]
+
+
+def beyond(ctx, r, npat, nval):
+    """T2 only, no oracle: values OUTSIDE the property's quantifier (a delimiter of the pattern inside a value,
+    `/` in a variable that is not the trailing one, adjacent variables, a newline, an empty value).  The theorems'
+    hypothesis `Good` is weaker than the quantifier's exclusion and the counterexample theorems say what happens
+    outside it, so the model has to agree with the real regex there as well."""
+    from gapic.schema import wrappers
+    from google.protobuf import descriptor_pb2
+    from google.api import resource_pb2
+    points = [(segs, vals) for segs, vals in BEYOND_POINTS]
+    for i in range(npat):
+        segs = gen_pattern(r)
+        if render(segs) == "*":
+            continue
+        if r.maybe(0.15):                                   # drop one separator: two adjacent variables
+            idx = [k for k in range(1, len(segs) - 1) if segs[k][0] == "lit" and segs[k - 1][0] == "var" and segs[k + 1][0] == "var"]
+            if idx:
+                segs = [x for k, x in enumerate(segs) if k != idx[0]]
+        d = sorted(delimiters(segs))
+        for j in range(nval):
+            vals = gen_values(r, segs)
+            k = r.randint(0, len(vals) - 1)
+            cut = r.randint(0, len(vals[k]))
+            ins = r.pick(d + ["/", "\n", ""]) if r.maybe(0.9) else None
+            vals[k] = "" if ins is None else vals[k][:cut] + ins + vals[k][cut:]
+            points.append((segs, vals))
+    ops, metas = [], []
+    for segs, vals in points:
+        opts = descriptor_pb2.MessageOptions()
+        opts.Extensions[resource_pb2.resource].type = "lib.example.com/Thing"
+        opts.Extensions[resource_pb2.resource].pattern.append(render(segs))
+        mt = wrappers.MessageType(message_pb=descriptor_pb2.DescriptorProto(name="Thing", options=opts),
+                                  fields={}, nested_enums={}, nested_messages={})
+        ops.append({"op": "c19", "segs": segs, "values": vals, "paths": []})
+        metas.append((segs, vals, list(mt.resource_path_args), mt.resource_path_formatted, mt.path_regex_str))
+    model = ctx.driver.ask(ops)
+    for (segs, vals, args, fmt, rx), mo in zip(metas, model):
+        ctx.count("beyond-quantifier", "evaluated")
+        payload = {"segs": segs, "values": vals, "pattern": render(segs), "via": "beyond-quantifier"}
+        try:
+            path = fmt.format(**dict(zip(args, vals)))
+            m = re.match(rx, path)
+            parsed = m.groupdict() if m else {}
+        except Exception as e:
+            parsed, path = {"raised": type(e).__name__}, None
+        if mo.get("unsupported") or mo.get("regex") is None:
+            ctx.unsupported += 1
+            continue
+        ctx.traces += 1
+        if mo["built"] != path or dict(mo["parsed_built"] or []) != parsed:
+            ctx.disagree("T2:c19.beyond-quantifier", f"model {mo['built']!r}/{mo['parsed_built']} vs impl {path!r}/{parsed}", payload)
+
+
 def search(ctx):
     """failing-input search after a broken obligation/correspondence: a larger sweep"""
     sweep(ctx, ctx.rng("search"), 300, 60)
+    beyond(ctx, ctx.rng("search-beyond"), 300, 20)
+    rv = ctx.rng("search-vis")
+    for a in range(12):
+        run_vis(ctx, gen_vis_spec(rv), f"search-vis{a}")
     r = ctx.rng("search-api")
     for a in range(6):
         cases = make_cases(ctx, r, 16)
@@ -413,6 +776,12 @@ def replay(ctx, payload):
         for f in ctx.failures:
             print("  failure:", f["key"], "-", f["what"])
         return not ctx.failures
+    if "vis" in payload:
+        ctx.driver = __import__("leanio").Driver()
+        run_vis(ctx, payload["vis"], "replay")
+        for f in ctx.failures:
+            print("  failure:", f["key"], "-", f["what"])
+        return not ctx.failures
     segs, vals = payload["segs"], payload["values"]
     c = {"name": "Alpha", "segs": segs, "values": vals, "nonmatching": [payload["path"]] if "path" in payload and payload.get("observed") is None and False else [], "kind": payload.get("kind", "message")}
     ctx.driver = __import__("leanio").Driver()
@@ -423,8 +792,8 @@ def replay(ctx, payload):
 
 
 CLAIM = dict(
-    text="Lean 4 proof (all patterns, all values, no size bound) on a regex-engine model of the emitted re.match that parse_<r>_path(<r>_path(vals)) returns exactly the segments and rebuilding returns the path, under an explicit decidable hypothesis `Good` (values non-empty, newline-free, not containing the first character of the literal that follows); wildcard and non-match theorems; counterexample theorems for what `Good` excludes. Tie: T1 bridge of PATH_ARG_RE/common resources, T2 AST equality between the model regex and CPython's parse of the real path_regex_str, T3 the static helpers of the imported emitted client vs the model, plus a model-independent oracle.",
-    technique='Lean 4 theorem (induction on pattern segments over a CPS backtracking-regex model) + translator bridge + differential T2/T3',
+    text="Lean 4 proofs, all inputs, no size bound. (1) On a regex-engine model of the emitted re.match: parse_<r>_path(<r>_path(vals)) returns exactly the segments and rebuilding returns the path under the decidable hypothesis `Good` (values non-empty, newline-free, not containing the first character of the literal that follows; the last variable is unrestricted, also before a singleton suffix); `roundtrip_in_quantifier` restates it in the property's own words (pattern shape + values free of the pattern's delimiters) and `common_resources_roundtrip` for the five bridged common patterns; wildcard and non-match theorems; counterexample theorems for every point the hypotheses exclude (empty value, newline, delimiter inside a value, adjacent variables), each run on the real code. (2) On a model of Service.resource_messages / recursive_field_types / Proto.resource_messages / visible_resources: the set of resources that get helpers is exactly the declaratively visible set (`service_resources_exactly_visible`: reachability through message-typed fields at any depth, cycles, LRO response types, references by type or child_type into the API-wide table), every visible resource has its own helper when helper names are distinct (`helper_for_every_visible_resource`), with counterexample theorems for the two name collisions and a regression theorem for a nested resource that is only named (fixed in 109fab8). Tie: T1 bridge of PATH_ARG_RE/common resources, T2 AST equality between the model regex and CPython's parse of the real path_regex_str, T2 Service.resource_messages vs the model on multi-file APIs, T2 beyond the quantifier (model = real regex where the theorems' hypotheses fail), T3 the static helpers and the helper-name set of the imported sync and async clients vs the model, plus a model-independent oracle.",
+    technique='Lean 4 theorems (induction on pattern segments over a CPS backtracking-regex model; work-list closure = reachability with a potential-function fuel bound) + translator bridge + differential T2/T3',
     design='7.19',
-    note='Hypotheses of parse_build_partial exclude empty and newline-containing values: both fail on the real code and are listed in known_findings.json.',
+    note='Hypotheses of parse_build_partial exclude empty and newline-containing values: both fail on the real code and are listed in known_findings.json. helper_for_every_visible_resource needs distinct helper names: both collisions are listed findings (known_findings.json, findings/C19.json).',
 )
